@@ -440,6 +440,53 @@ Theorem C01_remove_children_total : forall w ti n t ch, get_tree w ti = Some t -
 Proof. exact remove_children_total. Qed.
 Print Assumptions C01_remove_children_total.
 
+(* ====================================================================================== *)
+(* "Removed nodes are neither reachable nor counted" as ONE theorem (audit C01 F3).  [victim w o ti m]: m is
+   removed by o from tree ti, read off the arguments and the state BEFORE the call:
+     remove()                         the node's whole branch;  with_clones=True: the branch of every clone too
+     remove(keep_children=True)       the node itself (with_clones: every clone), their children stay
+     remove_children / clear / del    the children's branches / every node / the branch of the node the key finds
+     filter (in place)                every branch the visit removes (FBranch) AND every descendant of a node whose
+                                      children it removes (FKids: SkipBranch(and_self=False)) - for ANY outcome of
+                                      the predicate (an exception leaves the removals made so far in place).
+   [committed]: the call answered Ok (or is a filter).  Conclusion: in the state after the call the victim is in
+   no child list of the tree, not in the registry, in no group of the clone index - and in no tree of any later
+   state of any continuation of the history. *)
+From NT Require Import RemovedGone.
+
+Theorem C01_removed_unreachable : forall w o ti m, WFw w -> committed w o -> victim w o ti m ->
+  exists t', get_tree (snd (step w o)) ti = Some t' /\
+    ~ In m (ids (forest_of t')) /\ ~ In m (reg t') /\ (forall d, ~ In m (idx_get d (idx t'))) /\
+    forall ops, ~ In m (all_ids (run ops (snd (step w o)))).
+Proof. exact removed_unreachable. Qed.
+Print Assumptions C01_removed_unreachable.
+
+(* the arms [| None => acc] of op_remove and apply_fact (audit: "a silently failing removal keeps every theorem"):
+   in op_remove the arm is dead - a victim that is still in the tree is always removed -, in apply_fact it is
+   taken exactly for a node that is not in the tree, where doing nothing IS the specified result *)
+Theorem C01_remove_one_total : forall t v keep, live t v = true -> exists t', remove_one t v keep = Some t'.
+Proof. exact remove_one_total. Qed.
+Print Assumptions C01_remove_one_total.
+
+Theorem C01_apply_fact_is_cut : forall t a, WF t -> ~ In 0 (EffectsMore.Kof [a]) ->
+  forest_of (apply_fact t a) = flat_map (EffectsMore.cut_t (EffectsMore.Bof [a]) (EffectsMore.Kof [a])) (forest_of t).
+Proof. exact apply_fact_is_cut. Qed.
+Print Assumptions C01_apply_fact_is_cut.
+
+(* non-vacuity: a(1) > b(2) > c(3); e(4) > a'(5) (a clone of a) > d(6).  remove(with_clones=True) of node 1 takes
+   both branches; remove(keep_children=True, with_clones=True) takes 1 and 5 only; a filter that answers
+   SkipBranch(and_self=False) for 1 clears below it *)
+Definition c01_rw : world :=
+  run [ONewTree false None; OAdd 0 0 (c01_dd 10) None None BNone; OAdd 0 1 (c01_dd 20) None None BNone; OAdd 0 2 (c01_dd 30) None None BNone;
+       OAdd 0 0 (c01_dd 60) None None BNone; OAdd 0 4 (c01_dd 10) None None BNone; OAdd 0 5 (c01_dd 50) None None BNone] empty_world.
+Definition c01_pre (w : world) : list nat := map rid (pre_f (forest_of (nth 0 (trees w) (TS [] [] [] false None)))).
+Example C01_removed_unreachable_nonvacuous :
+  wf_world_b c01_rw = true /\ c01_pre c01_rw = [1; 2; 3; 4; 5; 6] /\
+  c01_pre (snd (step c01_rw (ORemove 0 1 false true))) = [4] /\
+  c01_pre (snd (step c01_rw (ORemove 0 1 true true))) = [2; 3; 4; 6] /\
+  c01_pre (snd (step c01_rw (OFilter 0 0 [(1, VSkipKeep)]))) = [1; 4; 5; 6].
+Proof. vm_compute. repeat split. Qed.
+
 (* ==== PART REMOVED: a removed node is inert (model theories/Forest/MiscRemoved.v, correspondence Cases/CaseMiscRemoved.v,
    harness parts_misc.REMOVED).  [slots] are the raw attributes of a node object, [sheap] gives them for every object;
    [clear_slots tag clear s] is what Tree._unregister assigns; [eval h fuel n a] is accessor [a] of node.py evaluated on
